@@ -310,6 +310,20 @@ def run(ctx):
                          "a parsed initial message can reach the checkout without infer (role of the previous transaction is reused)", pc.where(), wit and h.describe_path(wit))
 
 
+    # `an explicit SET SERVER ROLE wins`: the command switches the session's parser off (query_parser_enabled() == false) and that switch is what
+    # keeps infer from overwriting the role the client asked for - every routing inference of the idle loop is reached only over the true
+    # edge of query_parser_enabled() (statement_parsing_enabled() is also true when only the plugins want the AST)
+    if h and gets and claim:
+        qpe_true, _, _ = call_bool_edges(h, "pgcat::query_router::QueryRouter::query_parser_enabled", switches_cache=hsw)
+        pre_inf = [c for c in h.calls(*infer_like) if not h.dominates(claim[0].block, c.block)]
+        rd_t = [c.target for c in h.calls("pgcat::messages::read_message") if not h.dominates(claim[0].block, c.block) and c.target is not None]
+        r4.check(len(pre_inf) >= 3, "inference-sites", "%d routing inferences before the checkout (Q, P and B arms)" % len(pre_inf), "expected the routing inferences of the Q, P and B arms before the checkout, found %d" % len(pre_inf))
+        for c in pre_inf:
+            wit = h.uncrossed_path(rd_t, [c.block], edges=qpe_true)
+            r4.check(bool(qpe_true) and wit is None, "explicit-role-kept@%s#%d" % (c.name.split("::")[-1], pre_inf.index(c)), "%s runs only where query_parser_enabled() answered true (a session that set its role explicitly is not re-inferred)" % c.name.split("::")[-1],
+                     "%s can run although the session switched the parser off with SET SERVER ROLE (e.g. when only the plugins ask for the AST): the role the client set explicitly is overwritten by the inferred one, "
+                     "and stays overwritten" % c.name.split("::")[-1], c.where(), wit and h.describe_path(wit))
+
     # between the routing decision (infer / SET SERVER ROLE, both taken when the message is read) and the checkout, nothing writes the role
     if h:
         role_writers = set()
